@@ -210,6 +210,50 @@ func TestVerif_C17(t *testing.T) {
 			flush()
 			continue
 		}
+		// hostile candidate: a custodian-signed input that carries both a deposit and a mint payload with different
+		// amounts, the output worth one of the two; if it is admitted and finalized, whatever amount the total is
+		// moved by and whatever the output holds have to agree
+		if c.Kind == "deposit" && len(c.Tx.Inputs) == 1 && c.Tx.Inputs[0].Deposit != nil && rng.Intn(5) == 0 {
+			dd := *c.Tx.Inputs[0].Deposit
+			dd.Transaction += "-both-payloads"
+			depU := verifgen.UnitsOf(dd.Amount)
+			mintU := new(big.Int).Add(depU, big.NewInt(int64(1+rng.Intn(1000))))
+			if rng.Intn(2) == 0 && depU.Cmp(big.NewInt(2)) > 0 {
+				mintU = new(big.Int).Div(depU, big.NewInt(2))
+			}
+			raw := common.NewTransactionV5(c.Tx.Asset)
+			raw.AddDepositInput(&dd)
+			raw.Inputs[0].Mint = &common.MintData{Group: "UNIVERSAL", Batch: uint64(1 + rng.Intn(3000)), Amount: verifgen.Units(mintU)}
+			spec := c.Specs[0]
+			spec.Amount = verifgen.Units(mintU)
+			cls := "output-worth-the-mint-payload"
+			if rng.Intn(3) == 0 {
+				spec.Amount = dd.Amount
+				cls = "output-worth-the-deposit-payload"
+			}
+			verifgen.AddOutputs(raw, []verifgen.OutSpec{spec})
+			ver := raw.AsVersioned()
+			sig := d.w.Custodian.PrivateSpendKey.Sign(ver.PayloadHash())
+			ver.SignaturesMap = []map[uint16]*crypto.Signature{{0: &sig}}
+			bad := &verifSDTx{Kind: "deposit", Tx: ver, Specs: []verifgen.OutSpec{spec}}
+			admit := sim.Admit
+			if rng.Intn(2) == 0 {
+				admit = sim.AdmitFinal
+			}
+			var aerr error
+			if panicked, pv, _ := verifkit.Guard(func() { aerr = admit(bad.Tx, ts) }); panicked {
+				aerr = fmt.Errorf("panic: %v", pv)
+			}
+			if aerr != nil {
+				r.Count("rejected_deposit-and-mint-payload_input_"+cls, 1)
+			} else {
+				r.Count("ACCEPTED_deposit-and-mint-payload_input_"+cls, 1)
+				flush()
+				batch = []*verifSDTx{bad}
+				flush()
+				continue
+			}
+		}
 		// hostile candidates: a transfer whose outputs are worth more (or less) than its inputs; if validation
 		// lets one through and it is finalized, the scan below sees the supply drift
 		if c.Kind == "transfer" && len(c.Ins) > 0 && rng.Intn(6) == 0 {
